@@ -348,6 +348,12 @@ class Runtime:
     def addr(self, o):
         return o
 
+    def to_unsigned(self, v):
+        v = int(v)
+        if v < 0:
+            raise OverflowError("can't convert negative value to unsigned int")
+        return v & 0xFFFFFFFF
+
     def floatptr(self, a):
         return (a.ctypes.data, a)
 
@@ -478,6 +484,11 @@ def translate(src):
         s = re.sub(r'<object>\s*(\w+)', r'__rt.to_object(\1)', s)
         s = re.sub(r'<void\s*\*>\s*(\w+)', r'__rt.to_voidp(\1)', s)
         s = re.sub(r'(?<=[\(,\s])&(\w+)', r'__rt.addr(\1)', s)
+        # scalar casts of a name / attribute / simple call: <unsigned>x, <int>len(y), <float>a.b, <bint>f
+        s = re.sub(r'<\s*(unsigned(?:\s+int)?|size_t|Py_ssize_t)\s*>\s*([\w\.]+(?:\([^()]*\))?)', r'__rt.to_unsigned(\2)', s)
+        s = re.sub(r'<\s*(int|long)\s*>\s*([\w\.]+(?:\([^()]*\))?)', r'int(\2)', s)
+        s = re.sub(r'<\s*(float|double)\s*>\s*([\w\.]+(?:\([^()]*\))?)', r'float(\2)', s)
+        s = re.sub(r'<\s*bint\s*>\s*([\w\.]+(?:\([^()]*\))?)', r'bool(\1)', s)
         if re.search(r'<\s*\w+[\s\*]*>\s*\w', s) and '->' not in s and not s.lstrip().startswith('#'):
             raise BuildError('unknown cast: ' + s)
         return s
@@ -551,7 +562,7 @@ def translate(src):
                 elif base == 'list':
                     lists.add(n)
                 elif base in ('', 'object', 'bint', 'unsigned', 'int', 'float', 'double', 'dict', 'str', 'long',
-                              'size_t') or '*' in typ:
+                              'size_t', 'Py_ssize_t', 'unsigned int', 'tuple', 'bytes', 'string') or '*' in typ:
                     pass
                 else:
                     raise BuildError('unknown cdef type: ' + ln)
@@ -633,7 +644,8 @@ def build(repo, sanitize=False):
     lib = ctypes.CDLL(so)
     rt = Runtime(lib, structs, sigs, have_hook)
     mod = types.ModuleType('depccg._parsing')
-    mod.__dict__.update({'__rt': rt, 'NULL': rt.NULL, 'UINT_MAX': 0xFFFFFFFF, 'parse_sentence': rt.parse_sentence})
+    mod.__dict__.update({'__rt': rt, 'NULL': rt.NULL, 'UINT_MAX': 0xFFFFFFFF, 'parse_sentence': rt.parse_sentence,
+                         'deref': lambda p: p[0]})
     pyfile = os.path.join(builddir, '_parsing_translated.py')
     with open(pyfile, 'w') as f:
         f.write(py)
